@@ -224,6 +224,20 @@ pub fn run(tier: &str) -> i32 {
     progs.extend(crate::c05::io_host_space());
     progs.extend(lookalike_space());
     progs.extend(named_members_space());
+    // declarations-only modules (no entry point): structs reachable from variables are emitted and checked all the same
+    {
+        let n0 = progs.len();
+        for i in 0..n0 {
+            if (thorough || i % 9 == 0) && !progs[i].src.contains("@vertex") && !progs[i].src.contains("@fragment") {
+                if let Some(src) = without_entry_points(&progs[i].src) {
+                    let mut q = progs[i].clone();
+                    q.key = format!("no-entry|{}", q.key);
+                    q.src = src;
+                    progs.push(q);
+                }
+            }
+        }
+    }
     // member / element types written through `alias` declarations (every 3rd program in quick)
     {
         let n0 = progs.len();
@@ -243,7 +257,7 @@ pub fn run(tier: &str) -> i32 {
                 let mut v = check_model(p, *r, &t);
                 // field lists do not depend on the derive switches: the same check under other option sets
                 // (every 3rd program in quick; all structs that are shader IO and host-shareable at once)
-                if thorough || *i % 3 == 0 || p.key.contains("io-host|") {
+                if thorough || *i % 3 == 0 || p.key.contains("io-host|") || p.key.starts_with("bool|") || p.key.contains("atomic") {
                     let has_rt = Ty::Struct(p.root.clone()).has_rt_array(&p.env);
                     let mut alts = vec![Config { encase: true, bytemuck_vertex: true, serde: true, repr: *r, ..Config::default() }];
                     if !has_rt {
